@@ -48,6 +48,7 @@ type Scenario struct {
 	Unit     int     `json:"unit,omitempty"` // nanoseconds per time unit (tick, interval, freq)
 	Script   []Move  `json:"script"`
 	NoFinish bool    `json:"nofinish,omitempty"` // C06: after the script nobody receives any more: cancel + close inputs only
+	T        Timing  `json:"t,omitzero"`         // C11/C13/C08 only
 }
 
 func (sc *Scenario) unit() time.Duration {
